@@ -20,14 +20,16 @@ def register(R):
         ],
         native=False,
     )
-    # restore (transient display): carriage return, then h times (cursor up one, erase line)
+    # restore (transient display), called after the terminating new line: the cursor is max(1, h) rows below
+    # the top of the region (an empty region still got the new line): carriage return, then that many
+    # times (cursor up one, erase line)
     R.contract(
         "rich.live_render", "LiveRender.restore_cursor", serves=["C10"],
         params={"self": "LiveRender"}, returns="Control",
         requires=["implies(self._shape is not None, self._shape[1] >= 0)"],
         ensures=[
             "implies(self._shape is None, result._control_codes.text == '')",
-            "implies(self._shape is not None, result._control_codes.text == '\\r' + '\\x1b[1A\\x1b[2K' * self._shape[1])",
+            "implies(self._shape is not None, result._control_codes.text == '\\r' + '\\x1b[1A\\x1b[2K' * max(1, self._shape[1]))",
             "result._control_codes.is_control",
         ],
         native=False,
